@@ -71,6 +71,12 @@ def run(tier, seed):
         ok = bool(r.invariant_violated)
         print("[selftest] %-16s %-32s %s  (%s)" % (module, cfg, "rejected by TLC: invariant %s" % r.invariant_violated[0] if ok else "NOT REJECTED", what))
         fails += 0 if ok else 1
+    try:
+        R.apalache("CountersA", "CInit64Pinned", expect_error=True)
+        print("[selftest] apalache/CountersA CInit64Pinned            counterexample found by Apalache  (D10 at the real width)")
+    except vlib.ToolError as e:
+        print("[selftest] apalache/CountersA CInit64Pinned NOT REJECTED: %s" % e)
+        fails += 1
     # ---- 2. tampered traces must be rejected, untouched ones accepted
     plans = [("c01", "TraceHash", 14), ("c03", "TraceStream", 14), ("c05", "TraceMac", 14), ("c06", "TraceAead", 10), ("c10", "TraceKdf", 12), ("c18", "TraceCT", 10), ("c12", "TraceCurve", 4)]
     for mod, tm, n in plans:
